@@ -31,4 +31,5 @@ EXTRAS = [
     lambda rep, fb, tier: __import__("vf.rules.lints2", fromlist=["x"]).rule_dtype_case_methods(rep, fb),
     lambda rep, fb, tier: __import__("vf.rules.pyrules3", fromlist=["x"]).rule_py_raw_axis(rep),
     lambda rep, fb, tier: __import__("vf.rules.pyrules4", fromlist=["x"]).rule_py_numpy_positional(rep),
+    lambda rep, fb, tier: __import__("vf.rules.lints3", fromlist=["x"]).rule_shifts_handed_down(rep, fb),
 ]
